@@ -13,6 +13,7 @@ import Proofs.SrcBlind
 import Proofs.Restrict
 import Proofs.SeedTable
 import Proofs.SeedingGlue
+import Proofs.RefOrder
 namespace Coma.Props
 open Coma Coma.Spec
 
@@ -124,5 +125,31 @@ theorem C10_seed_lookup (c : SecCfg) (refs qs : List OMap) (pt : PTable) (d : De
 theorem C10_seed_table_query_perm (c : SecCfg) (refs qs qs' : List OMap) (pt : PTable) (hp : qs.Perm qs') (hn : (qs.map (·.id)).Nodup) :
     deriveTable c refs qs' pt = deriveTable c refs qs pt :=
   Coma.Proofs.deriveTable_perm c refs qs qs' pt hp hn
+
+/-! ### "references … listed in a different order" -/
+
+/-- given the seed table, the whole run (every output mode) does not depend on the order in which the references are
+    listed (distinct reference ids: C17) -/
+theorem C10_reference_order (cfg : Cfg) (mode : Mode) (refs refs' : List OMap) (t : SeedTable) (qs : List OMap) (it : Int)
+    (hp : refs.Perm refs') (hn : (refs.map (·.id)).Nodup) :
+    execute cfg mode refs' t qs it = execute cfg mode refs t qs it :=
+  Coma.Proofs.execute_ref_perm cfg mode refs refs' t qs it hp hn
+
+/-- nor does the secondary seeding stage: the seed table derived from the selected primary peaks is the same -/
+theorem C10_seed_table_reference_order (c : SecCfg) (refs refs' qs : List OMap) (pt : PTable)
+    (hp : refs.Perm refs') (hn : (refs.map (·.id)).Nodup) :
+    deriveTable c refs' qs pt = deriveTable c refs qs pt :=
+  Coma.Proofs.deriveTable_ref_perm c refs refs' qs pt hp hn
+
+/-- `PeaksSelector.selectPeaks` over the peaks of all references: with pairwise different scores the selected peaks and
+    their order do not depend on the order in which the references deliver them (with tied scores the stable sort keeps
+    arrival order — then, and only then, the listing order of the references can matter) -/
+theorem C10_selection_reference_order {α} (count : Nat) (score : α → Int) (peaks peaks' : List α) (hp : peaks.Perm peaks')
+    (hinj : ∀ a ∈ peaks, ∀ b ∈ peaks, score a = score b → a = b) :
+    selectPeaks count score peaks' = selectPeaks count score peaks :=
+  Coma.Proofs.selectPeaks_perm count score peaks peaks' hp hinj
+
+/-- the tie case is real: two peaks with one score, `count = 1` — the first delivered wins -/
+example : selectPeaks 1 (fun (p : Int × Int) => p.2) [(1, 5), (2, 5)] ≠ selectPeaks 1 (fun (p : Int × Int) => p.2) [(2, 5), (1, 5)] := by decide
 
 end Coma.Props
